@@ -1,3 +1,4 @@
+#define _GNU_SOURCE
 /* PMPI shim: observes every MPI call the *library* makes on behalf of an API call
  * (the driver itself uses PMPI_* directly), logs collectives / MPI-IO with the id of
  * the enclosing script op, injects faults and delays, and keeps a live balance of
@@ -117,6 +118,35 @@ int MPI_Type_get_contents(MPI_Datatype t, int mi, int ma, int md, int *ai, MPI_A
 }
 int MPI_Type_free(MPI_Datatype *t)
 { shim_bal[0]--; return PMPI_Type_free(t); }
+
+/* ---------------- POSIX short writes ----------------
+ * POSIX allows write()/pwrite() to transfer fewer bytes than asked without failing.  When switched on by the script
+ * (op "shortwrite"), calls that the statically linked library makes on a burst-buffer log file (a path containing
+ * "/bb/") transfer only half of the request; correct code loops over the rest. */
+#include <dlfcn.h>
+static int is_bb_log(int fd)
+{
+    char lk[64], path[4096];
+    snprintf(lk, sizeof(lk), "/proc/self/fd/%d", fd);
+    ssize_t n = readlink(lk, path, sizeof(path) - 1);
+    if (n <= 0) return 0;
+    path[n] = 0;
+    return strstr(path, "/bb/") != NULL;
+}
+ssize_t write(int fd, const void *buf, size_t n)
+{
+    static ssize_t (*real)(int, const void *, size_t);
+    if (!real) real = (ssize_t (*)(int, const void *, size_t))dlsym(RTLD_NEXT, "write");
+    if (shim.short_write > 0 && n > (size_t)shim.short_write && is_bb_log(fd)) { n = n / 2; shim.short_fired++; }
+    return real(fd, buf, n);
+}
+ssize_t pwrite(int fd, const void *buf, size_t n, off_t off)
+{
+    static ssize_t (*real)(int, const void *, size_t, off_t);
+    if (!real) real = (ssize_t (*)(int, const void *, size_t, off_t))dlsym(RTLD_NEXT, "pwrite");
+    if (shim.short_write > 0 && n > (size_t)shim.short_write && is_bb_log(fd)) { n = n / 2; shim.short_fired++; }
+    return real(fd, buf, n, off);
+}
 
 /* ---------------- info ---------------- */
 int MPI_Info_create(MPI_Info *i)
